@@ -15,7 +15,7 @@ import z3
 
 from pyvc.sidecar import *  # noqa: F401,F403
 from pyvc import heapmodel, smt, source
-from pyvc.builtins import cls_code, typeof_f, ok
+from pyvc.builtins import cls_code, typeof_f, ok, sym_isinstance
 from pyvc.contracts import Contract, Clause, oblige, eval_clause, _parse_expr, apply_contract
 from contracts import conn_model as cm
 from contracts.common_conn import CONN, CLIENT, snapshot_msg
@@ -171,7 +171,10 @@ def install(eng, tags):
             client_cut(eng_, s, "await send_messages_await_response_complex")
             out.append(cancel_outcome(eng_, s))
             s_err = s.clone()
-            out.append((s_err, Raised(eng_.fresh_exception(s_err, core.APIConnectionError))))      # TimeoutAPIError or the connection's error
+            ex_ = eng_.fresh_exception(s_err, core.APIConnectionError)      # TimeoutAPIError or the connection's error ...
+            for k_ in (core.BluetoothGATTAPIError, core.BluetoothConnectionDroppedError):       # ... never one of the errors only the client layer raises
+                s_err.assume(z3.Not(sym_isinstance(eng_, ex_, k_)))
+            out.append((s_err, Raised(ex_)))
             R = fresh(eng_, s, "list[obj[Message]]", "responses")
             re_ = s.heap[R.oid].f["e"]
             types = eng_.iter_concrete(vals["msg_types"], s)
@@ -416,6 +419,185 @@ def lifecycle_contracts():
 GATES_NOT_COVERED = []
 
 
+# ------------------------------------------------------------------------------------------------------------
+# C16 (client side) and C17 (subscriptions)
+# ------------------------------------------------------------------------------------------------------------
+def ble_contracts():
+    NOTHING_LEFT = "live_subscriptions == 0"
+    return [
+        Contract(CLI + "_raise_for_ble_connection_change", self_type="inst[APIClient]", tags=["C16"],
+                 params={"address": "int", "response": "obj[Message]", "msg_types": "tuple[cls,cls]"},
+                 ensures=[P("C16", "returns-only-for-a-non-connection-message", "not exact_type(response, BluetoothDeviceConnectionResponse)")],
+                 raises={"BluetoothConnectionDroppedError": {"kind": "property", "when": "exact_type(response, BluetoothDeviceConnectionResponse)"}}),
+        Contract(CLI + "_send_bluetooth_message_await_response", self_type="inst[APIClient]", tags=["C16"], result="obj[Message]",
+                 params={"address": "int", "handle": "int", "request": "obj[Message]", "response_type": "cls", "timeout": "real"},
+                 setup=_ble_request_setup,
+                 ensures=[P("C16", "completes-only-with-the-response-for-its-own-address-and-handle",
+                            "same_class(class_of(result), response_type) and result.address == address and result.handle == handle"),
+                          P("C16", "request-written-once", "n_sent == 1 and sent[0] is request")],
+                 raises={"BluetoothGATTAPIError": {"kind": "property", "ensures": [
+                             ("own:only-for-an-error-response-with-its-address-and-handle",
+                              "exact_type(resp, BluetoothGATTErrorResponse) and resp.address == address and resp.handle == handle")]},
+                         "BluetoothConnectionDroppedError": {"kind": "property", "ensures": [
+                             ("own:only-for-a-connection-change-of-its-address", "exact_type(resp, BluetoothDeviceConnectionResponse) and resp.address == address")]},
+                         "APIConnectionError": {"kind": "auxiliary"}, "CancelledError": {"kind": "auxiliary"}}),
+        Contract(CLI + "bluetooth_gatt_start_notify", self_type="inst[APIClient]", tags=["C16"],
+                 params={"address": "int", "handle": "int", "on_bluetooth_gatt_notify": "callable[UserCb]", "timeout": "real"},
+                 requires=[("fields-fit", "address >= 0 and address < 2 ** 64 and handle >= 0 and handle < 2 ** 32")],
+                 ensures=[P("C16", "success-leaves-exactly-its-own-data-subscription", "live_subscriptions == 1 and n_subscribed == 1")],
+                 raises={"APIConnectionError": {"kind": "property", "ensures": [("failed-start-leaves-nothing-subscribed", NOTHING_LEFT)]},
+                         "CancelledError": {"kind": "property", "ensures": [("cancelled-start-leaves-nothing-subscribed", NOTHING_LEFT)]}}),
+        Contract(CLI + "bluetooth_device_connect", self_type="inst[APIClient]", tags=["C16"],
+                 params={"address": "int", "on_bluetooth_connection_state": "callable[UserCb]", "timeout": "real", "disconnect_timeout": "real",
+                         "feature_flags": "int", "has_cache": "bool", "address_type": "opt[int]"},
+                 setup=lambda eng, st: [region(eng, st, r) for r in cm.REGIONS],
+                 requires=[("timeouts-positive", "timeout > 0 and disconnect_timeout > 0"), ("address-fits", "address >= 0 and address < 2 ** 64"),
+                           ("flags-nonneg", "feature_flags >= 0"), ("address-type-fits", "implies(address_type is not None, address_type >= 0 and address_type < 2 ** 32)")],
+                 ensures=[P("C16", "success-leaves-only-the-returned-subscription", "live_subscriptions == 1 and not armed(timeout_handle)")],
+                 raises={"TimeoutAPIError": {"kind": "property", "ensures": [
+                             ("own:timeout-first-unsubscribes-then-asks-the-device-to-disconnect",
+                              "implies(timeout_expired, unsubscribed_before_last_send and n_sent >= 2 and exact_type(sent[n_sent - 1], BluetoothDeviceRequest) "
+                              "and sent[n_sent - 1].address == address and sent[n_sent - 1].request_type == 1)"),
+                             ("nothing-left-subscribed", NOTHING_LEFT)]},
+                         "APIConnectionError": {"kind": "property", "ensures": [("nothing-left-subscribed", NOTHING_LEFT)]},
+                         "CancelledError": {"kind": "property", "ensures": [("nothing-left-subscribed", NOTHING_LEFT)]}}),
+    ]
+
+
+def _ble_request_setup(eng, st):
+    import aioesphomeapi.api_pb2 as pb
+    rt = st.env.f["response_type"]
+    st.assume(z3.Or(*[rt.code == cls_code(c) for c in (pb.BluetoothGATTNotifyResponse, pb.BluetoothGATTReadResponse, pb.BluetoothGATTWriteResponse)]))
+    rq = st.env.f["request"]
+    st.assume(z3.Or(*[typeof_f(rq.e) == cls_code(c) for c in (pb.BluetoothGATTReadRequest, pb.BluetoothGATTWriteRequest, pb.BluetoothGATTNotifyRequest)]))
+
+
+SUBSCRIPTIONS = {
+    # method: (params, request class, expected request fields, adapter function or None (the user callback itself), adapter bound args, response types)
+    "subscribe_states": ({"on_state": "callable[UserCb]"}, "SubscribeStatesRequest", {}, "on_state_msg", None, None),
+    "subscribe_logs": ({"on_log": "callable[UserCb]", "log_level": "opt[enum[aioesphomeapi.model.LogLevel]]", "dump_config": "opt[bool]"}, "SubscribeLogsRequest",
+                       {"level": "(int(log_level) if log_level is not None else 0)", "dump_config": "(dump_config if dump_config is not None else False)"},
+                       None, "on_log", ("SubscribeLogsResponse",)),
+    "subscribe_service_calls": ({"on_service_call": "callable[UserCb]"}, "SubscribeHomeassistantServicesRequest", {}, "on_home_assistant_service_response",
+                                ("on_service_call",), ("HomeassistantServiceResponse",)),
+    "subscribe_bluetooth_le_advertisements": ({"on_bluetooth_le_advertisement": "callable[UserCb]"}, "SubscribeBluetoothLEAdvertisementsRequest", {"flags": "0"},
+                                              "on_bluetooth_le_advertising_response", ("on_bluetooth_le_advertisement",), ("BluetoothLEAdvertisementResponse",)),
+    "subscribe_bluetooth_le_raw_advertisements": ({"on_advertisements": "callable[UserCb]"}, "SubscribeBluetoothLEAdvertisementsRequest", {"flags": "1"},
+                                                  None, "on_advertisements", ("BluetoothLERawAdvertisementsResponse",)),
+    "subscribe_bluetooth_connections_free": ({"on_bluetooth_connections_free_update": "callable[UserCb]"}, "SubscribeBluetoothConnectionsFreeRequest", {},
+                                             "on_bluetooth_connections_free_response", ("on_bluetooth_connections_free_update",), ("BluetoothConnectionsFreeResponse",)),
+    "subscribe_home_assistant_states": ({"on_state_sub": "callable[UserCb]", "on_state_request": "opt[callable[UserCb]]"}, "SubscribeHomeAssistantStatesRequest", {},
+                                        "on_subscribe_home_assistant_state_response", ("on_state_sub", "on_state_request"), ("SubscribeHomeAssistantStateResponse",)),
+}
+
+
+def subscription_contract(method):
+    params, req, fields, adapter, bound, types = SUBSCRIPTIONS[method]
+    ens = [P("C17", "one-request-then-one-handler-in-the-same-turn", f"event_kinds == ('send', 'subscribe') and n_cuts == 0 and exact_type(sent[0], {req})")]
+    for f, e in fields.items():
+        ens.append(P("C17", f"request-field:{f}", f"sent[0].{f} == {e}"))
+    if types is not None:
+        ens.append(P("C17", "handler-registered-for-exactly-the-response-types", f"subscribed_types(0) == ({', '.join(types)},)"))
+    if adapter is None:
+        ens.append(P("C17", "the-user-callback-itself-is-the-handler", f"subscribed_callback(0) is {bound}"))
+    elif bound is not None:
+        ens.append(P("C17", "handler-is-the-adapter-bound-to-the-user-callback", f"is_partial_of(subscribed_callback(0), {adapter}, {', '.join(bound)})"))
+    else:
+        ens.append(P("C17", "handler-is-the-state-adapter-with-a-fresh-image-stream", f"is_state_adapter(subscribed_callback(0), on_state)"))
+    return Contract(CLI + method, self_type="inst[APIClient]", params=params, tags=["C17"], requires=[("session-alive", "connected(self)")],
+                    ensures=ens, raises={"APIConnectionError": {"kind": "auxiliary", "ensures": [("nothing-subscribed", "n_subscribed == 0")]}})
+
+
+def voice_contract():
+    return Contract(
+        CLI + "subscribe_voice_assistant", self_type="inst[APIClient]", tags=["C17"],
+        params={"handle_start": "callable[UserCoro]", "handle_stop": "callable[UserCoro]", "handle_audio": "opt[callable[UserCoro]]",
+                "handle_announcement_finished": "opt[callable[UserCoro]]"},
+        requires=[("session-alive", "connected(self)")],
+        # the returned unsubscribe function is run (ghost) right after subscribing, on the still-connected session
+        post_hints="try:\n    result()\nexcept APIConnectionError:\n    ghost_unsub_failed = True",
+        ensures=[P("C17", "subscribes-with-the-audio-flag-iff-an-audio-handler-was-given",
+                   "exact_type(first_send(), SubscribeVoiceAssistantRequest) and first_send().subscribe and first_send().flags == (4 if handle_audio is not None else 0)"),
+                 P("C17", "one-handler-per-given-callback",
+                   "n_subscribed == 1 + (1 if handle_audio is not None else 0) + (1 if handle_announcement_finished is not None else 0)"),
+                 P("C17", "unsubscribe-removes-every-handler-and-tells-the-device", "live_subscriptions == 0 and (unsub_write_failed or (exact_type(sent[n_sent - 1], SubscribeVoiceAssistantRequest) "
+                                                                                     "and not sent[n_sent - 1].subscribe and n_sent == 2))")],
+        raises={"APIConnectionError": {"kind": "auxiliary"}},
+    )
+
+
+def install_c16_c17(eng):
+    import aioesphomeapi.core as core
+    import aioesphomeapi.client as CL
+    import aioesphomeapi.client_callbacks as CBM
+    import aioesphomeapi.connection as C
+    names = eng.hooks["names"]
+    install_lifecycle_models(eng)
+    for fn in (core.to_human_readable_address, core.to_human_readable_gatt_error):
+        eng.builtins[id(fn)] = lambda e, s, a, k: ok(s, VStr(z3.Const(fresh_name("text"), StrS)))
+    for n in dir(CBM):
+        if n.startswith("on_"):
+            names.setdefault(n, eng.lift(getattr(CBM, n), State_()))
+    eng.inline.add(CONN + "handle_timeout")
+
+    def bfn(name):
+        def deco(f):
+            names[name] = VFunc("builtin", name=name, impl=f)
+            return f
+        return deco
+
+    @bfn("subscribed_types")
+    def _st(eng_, st, args, kwargs):
+        evs = [ev for ev in st.events if ev[0] == "subscribe"]
+        return ok(st, evs[int(simp(as_int(args[0])).as_long())][2])
+
+    @bfn("subscribed_callback")
+    def _sc(eng_, st, args, kwargs):
+        evs = [ev for ev in st.events if ev[0] == "subscribe"]
+        return ok(st, evs[int(simp(as_int(args[0])).as_long())][1])
+
+    @bfn("first_send")
+    def _fs(eng_, st, args, kwargs):
+        for ev in st.events:
+            if ev[0] == "send":
+                return ok(st, ev[1][0])
+        raise Unsupported("nothing was sent on this path")
+
+    @bfn("is_partial_of")
+    def _ipo(eng_, st, args, kwargs):
+        f, func, bound = args[0], args[1], list(args[2:])
+        okk = (isinstance(f, VFunc) and f.kind == "partial" and isinstance(f.func, VFunc) and isinstance(func, VFunc)
+               and getattr(f.func, "qualname", None) == getattr(func, "qualname", "?") and len(f.args) == len(bound) and not f.kwargs)
+        if not okk:
+            return ok(st, VBool(False))
+        return ok(st, VBool(simp(z3.And(*[cm.same_value(x, y) for x, y in zip(f.args, bound)] or [z3.BoolVal(True)]))))
+
+    @bfn("is_state_adapter")
+    def _isa(eng_, st, args, kwargs):
+        f, user = args
+        okk = (isinstance(f, VFunc) and f.kind == "partial" and getattr(f.func, "qualname", None) == "on_state_msg" and len(f.args) == 2 and not f.kwargs
+               and isinstance(f.args[1], VRef) and st.heap[f.args[1].oid].kind == "dict" and not st.heap[f.args[1].oid].f["items"])
+        return ok(st, VBool(simp(cm.same_value(f.args[0], user)) if okk else False))
+
+    prev_nd = eng.hooks.get("names_dynamic")
+
+    def nd(name, st):
+        if name == "unsub_write_failed":
+            return VBool(any(t.startswith("send!") for t in st.trace))
+        if name == "unsubscribed_before_last_send":
+            last_send = max([i for i, ev in enumerate(st.events) if ev[0] == "send"], default=-1)
+            subs = {ev[3]: i for i, ev in enumerate(st.events) if ev[0] == "subscribe"}
+            uns = {ev[1]: i for i, ev in enumerate(st.events) if ev[0] == "unsubscribe"}
+            return VBool(all(t in uns and uns[t] < last_send for t in subs))
+        return prev_nd(name, st) if prev_nd else None
+    eng.hooks["names_dynamic"] = nd
+
+
+def State_():
+    from pyvc.state import State
+    return State()
+
+
 def targets_for(eng, which, tags):
     names = install(eng, tags)
     import aioesphomeapi.connection as C
@@ -426,6 +608,20 @@ def targets_for(eng, which, tags):
         for c in lifecycle_contracts():
             c.tags = list(tags)
             out.append(contract_target(c))
+    if "c16" in which or "c17" in which:
+        install_c16_c17(eng)
+    if "c16" in which:
+        for c in ble_contracts():
+            c.tags = list(tags)
+            out.append(contract_target(c))
+    if "c17" in which:
+        for mth in SUBSCRIPTIONS:
+            c = subscription_contract(mth)
+            c.tags = list(tags)
+            out.append(contract_target(c))
+        c = voice_contract()
+        c.tags = list(tags)
+        out.append(contract_target(c))
     if "gates" in which:
         for n, node in writing_methods().items():
             c = gate_contract(n, node)
